@@ -730,6 +730,13 @@ class Canon:
                 break
 
     def tree(self, tree: ast.AST) -> None:
+        # module-level constant tables (`_SWAPS = (("a", "b"), ("c", "d"))`): a loop over one is a literal loop
+        self.constants: Dict[str, ast.expr] = {}
+        for st in getattr(tree, "body", []):
+            if isinstance(st, ast.Assign) and len(st.targets) == 1 and isinstance(st.targets[0], ast.Name) and isinstance(st.value, (ast.Tuple, ast.List)):
+                if all(isinstance(x, ast.Constant) or (isinstance(x, (ast.Tuple, ast.List)) and all(isinstance(y, ast.Constant) for y in x.elts))
+                       for x in st.value.elts):
+                    self.constants[st.targets[0].id] = st.value
         for n in ast.walk(tree):
             if isinstance(n, FuncNode):
                 self.function(n)
@@ -1429,9 +1436,32 @@ class Canon:
 
     # -- S12
     def _unroll(self, s: ast.For, rest: List[ast.stmt]) -> Optional[List[ast.stmt]]:
-        if not isinstance(s.iter, (ast.Tuple, ast.List)) or not (1 <= len(s.iter.elts) <= 4):
+        it = s.iter
+        if isinstance(it, ast.Name) and it.id in getattr(self, "constants", {}) and NameFacts(self.fn).stores.get(it.id, 0) == 0:
+            it = self.constants[it.id]
+        if not isinstance(it, (ast.Tuple, ast.List)) or not (1 <= len(it.elts) <= 4):
             return None
-        if not isinstance(s.target, ast.Name) or not all(_simple(e) for e in s.iter.elts):
+        if isinstance(s.target, ast.Tuple) and all(isinstance(t, ast.Name) for t in s.target.elts):
+            # `for a, b in ((1, 2), (3, 4)): S(a, b)`
+            names = [t.id for t in s.target.elts]  # type: ignore[attr-defined]
+            if not all(isinstance(e, (ast.Tuple, ast.List)) and len(e.elts) == len(names) and all(_simple(y) for y in e.elts) for e in it.elts):
+                return None
+            facts = NameFacts(self.fn)
+            for x in names:
+                if facts.loads.get(x, 0) != _all_loads(s, x) or facts.stores.get(x, 0) != 1 or x in facts.nested_refs:
+                    return None
+            body = _unguard(s.body)
+            if body is None or any(isinstance(n, (ast.Break, ast.Continue)) for b in body for n in ast.walk(b)):
+                return None
+            out2: List[ast.stmt] = []
+            for e in it.elts:
+                for b in body:
+                    c = copy.deepcopy(b)
+                    for x, v in zip(names, e.elts):  # type: ignore[attr-defined]
+                        c = _Subst(x, v).visit(c)
+                    out2.append(c)
+            return out2
+        if not isinstance(s.target, ast.Name) or not all(_simple(e) for e in it.elts):
             return None
         x = s.target.id
         # x must not be read after the loop (it would keep its last value)
@@ -1447,7 +1477,7 @@ class Canon:
         if any(isinstance(n, (ast.Break, ast.Continue)) for b in body for n in ast.walk(b)):
             return None
         out: List[ast.stmt] = []
-        for e in s.iter.elts:
+        for e in it.elts:
             sub = _Subst(x, e)
             for b in body:
                 out.append(sub.visit(copy.deepcopy(b)))
